@@ -2,6 +2,7 @@ package twin
 
 import (
 	"errors"
+	"regexp"
 	"fmt"
 	"os"
 	"path/filepath"
@@ -16,6 +17,8 @@ import (
 
 	"harness/core"
 )
+
+var sentRe = regexp.MustCompile(`^/s[0-9]+$`)
 
 // WatchdogTimeout only stops hangs; it never decides a verdict by itself.
 var WatchdogTimeout = 20 * time.Second
@@ -173,6 +176,10 @@ func (s *Session) Barrier() (ok bool, dump string) {
 				if x == n {
 					unix.Unlink(n)
 					return true, ""
+				}
+				if !sentRe.MatchString(x[len(s.Sent):]) {
+					unix.Unlink(n)
+					return false, fmt.Sprintf("sentinel-name-mangled: received %q while waiting for %q", x, n)
 				}
 			case <-s.ovf:
 				reissue = true
